@@ -649,8 +649,12 @@ class Hugr(Mapping[Node, NodeData], Generic[OpVarCov]):
         """
         mapping: dict[Node, Node] = {}
 
-        for node, node_data in hugr.nodes():
-            # relies on parents being inserted before any children
+        # parents are inserted before their children, and siblings in child order
+        # (which index order does not guarantee once freed indices are reused)
+        for idx in hugr._serialization_order():
+            node_data = hugr._nodes[idx]
+            assert node_data is not None
+            node = Node(idx, node_data.metadata)
             try:
                 node_parent = mapping[node_data.parent] if node_data.parent else parent
             except KeyError as e:
